@@ -1420,4 +1420,32 @@ theorem busy_ne_zero : ∀ (ws : List Phase), busy ws ≠ 0 → ∃ j, ∃ h : j
       exact ⟨j + 1, by simpa using hj, by simpa using hne⟩
     · exact ⟨0, by simp, by simpa using hq⟩
 
+/-! ## a failing provider changes nothing -/
+
+theorem fetchStep_provFail (g : Graph) (cfg : Cfg) (f : Nat → Bool) (c : Nat) (l : Logs) :
+    fetchStep g { cfg with provFail := f } c l = fetchStep g cfg c l := rfl
+
+theorem seq_provFail (g : Graph) (cfg : Cfg) (f : Nat → Bool) : ∀ fuel,
+    (∀ c d s, seqWalk g { cfg with provFail := f } fuel c d s = seqWalk g cfg fuel c d s) ∧
+    (∀ ks d s, seqList g { cfg with provFail := f } fuel ks d s = seqList g cfg fuel ks d s) := by
+  intro fuel
+  induction fuel with
+  | zero => exact ⟨fun _ _ _ => rfl, fun _ _ _ => rfl⟩
+  | succ n ih =>
+    obtain ⟨ihW, ihL⟩ := ih
+    constructor
+    · intro c d s
+      rw [seqWalk_succ, seqWalk_succ]
+      simp only [fetchStep_provFail, ihL]
+      rfl
+    · intro ks d s
+      cases ks with
+      | nil => rfl
+      | cons k ks =>
+        rw [seqList_succ_cons, seqList_succ_cons]
+        simp only [ihW, ihL]
+
+theorem pstep_provFail (g : Graph) (cfg : Cfg) (f : Nat → Bool) (s : PSt) (i : Nat) :
+    pstep g { cfg with provFail := f } s i = pstep g cfg s i := rfl
+
 end C12
